@@ -128,12 +128,12 @@ def gen_corner(ck: Check):
     W, H, items = 10, 12, [[5, 6, 1], [1, 1, 1], [4, 2, 1], [7, 2, 1], [1, 4, 1]]
     yield "overhang", W, H, items, [[1, 2, 3, 4, 5], [1, 2, 3, 4, -5], [2, 1, 3, 4, 5], [1, 3, 2, 4, 5], [4, 1, 2, 3, 5]]
     allp = list(c01.all_signed_perms(items))
-    yield "overhang-perms", W, H, items, rng.sample(allp, 60 if q else 1500)
+    yield "overhang-perms", W, H, items, rng.sample(allp, 150 if q else len(allp))
     # the 4x4 overhang with a touching (but resting) item, and the docstring example of Liu & Teng
     yield "overhang", 4, 4, [[2, 2, 1], [3, 1, 1], [1, 2, 1], [1, 1, 2]], \
         [[1, 2, 3, 4, 4], [1, 2, 4, 3, 4], [1, 2, 4, 4, 3], [-1, 2, -3, 4, -4]]
     yield "docstring", 30, 30, [[10, 20, 5], [5, 5, 5]], [[1, -1, 2, -2, 1, -2, -2, -1, -1, 2]]
-    for _ in range(60 if q else 1500):
+    for _ in range(150 if q else 1500):
         c = overhang_case(rng)
         if c:
             W, H, items, x = c
@@ -148,7 +148,7 @@ def gen_corner(ck: Check):
         c = overhang_case(rng, big=True)
         if c:
             yield "overhang-big", c[0], c[1], c[2], [c[3]]
-    for _ in range(60 if q else 1500):
+    for _ in range(150 if q else 1500):
         c = support_case(rng)
         if c:
             W, H, items, x = c
@@ -157,7 +157,7 @@ def gen_corner(ck: Check):
             rng.shuffle(x3)
             xs.append(x3)
             yield "supports", W, H, items, xs
-    for _ in range(150 if q else 4000):
+    for _ in range(500 if q else 6000):
         c = tetris_case(rng, q)
         if c:
             W, H, items, x = c
@@ -260,7 +260,7 @@ def streams(ck: Check) -> None:
                 res = one_decode(stream, W, H, items, inst, encs[ei], ei, x, y, "target", hl, fresh)
                 ck.count(f"bins_{min(res[1], 5)}{'+' if res[1] >= 5 else ''}")
 
-    outs = ck.model(ops)
+    outs = ck.model(ops, drv="drv_c14")
     for line, (kind, stream, case, (rows, nb), fresh), mout in zip(ops, ctx, outs):
         d = kv(mout)
         e = case["encoding"]
